@@ -147,6 +147,12 @@ def main():
     import netgen
     import pipeline
 
+    import pending
+
+    # repairs written but not yet in the tree under test: their keys stay open exactly as long as the patch still applies
+    # forward to this tree (harness/pending.py); Model/Constraints.lean follows the REPAIRED behaviour of
+    # constraint_resize (C13-22), constraint_tens_quant_per_axis (C13-24) and constraint_bias_40bit (C13-27)
+    open_pending = pending.register(ck)
     rng = ck.rng
     explore = "--explore" in os.sys.argv
     import time as _time
@@ -222,6 +228,38 @@ def main():
     for (i, doc, obs), j in zip(judge_meta, jouts):
         if j != "1" and obs != "raised":
             spec_rej.append((i, doc, obs))
+    # A disagreement that names a constraint whose repair is pending for this tree is that recorded defect (the model
+    # follows the repaired function); everything else is reported as before.
+    def fn_key(which, m, r):
+        cm, cr = c16_lib.canon_model(m), c16_lib.canon_real(r)
+        if cm.startswith("cpu "):
+            return f"fn-dis:{which}:model-rejects:{cm.split(' ')[1]}"
+        if cr.startswith("cpu "):
+            return f"fn-dis:{which}:real-rejects:{cr.split(' ')[1]}"
+        return None
+
+    def spec_key(doc, rs="", ru=""):
+        parts = doc.split(" ")
+        if parts[0] == "cpu" and len(parts) > 2:
+            return "spec-rej:" + parts[2]
+        for real in (rs, ru):
+            if real.startswith("cpu ") and parts[0] == "npu":
+                return "spec-rej:real-rejects:" + real.split(" ")[1]
+        return None
+
+    pending_fn = [t for t in fn_dis if ck.finding_key_known(fn_key(t[1], t[2], t[3])) is not None]
+    for i, which, m, r in pending_fn:
+        fam, label, d = meta[i][:3]
+        ck.violation(f"constraint function differs from its repaired model on a stub {fam} operator ({label}): model '{m}' real '{r}'",
+                     {"family": fam, "label": label, "descriptor": d[:3000], "model": m, "real": r}, found_input=True, key=fn_key(which, m, r))
+    fn_dis = [t for t in fn_dis if t not in pending_fn]
+    pending_spec = [t for t in spec_rej if ck.finding_key_known(spec_key(t[1], meta[t[0]][3], meta[t[0]][4])) is not None]
+    for i, doc, obs in pending_spec:
+        fam, label, d, rs, ru, run = meta[i]
+        ck.violation(f"documented constraint and the unrepaired function disagree on a stub {fam} operator ({label}): report '{doc[:120]}', real {obs}",
+                     {"family": fam, "label": label, "descriptor": d[:3000], "documented": doc, "semantic": rs, "supported": ru},
+                     found_input=True, key=spec_key(doc, rs, ru))
+    spec_rej = [t for t in spec_rej if t not in pending_spec]
     for i, doc, obs in spec_rej[:6]:
         fam, label, d, rs, ru, run = meta[i]
         ck.violation(f"documented constraints and the real verdict disagree on a stub {fam} operator ({label}): the report says "
@@ -283,7 +321,7 @@ def main():
         print("TIMING per family:", [(k, round(v, 1)) for k, v in fam.most_common(25)])
     preqs, pmeta = [], []
     c13_skipped, crashes = 0, []
-    c13_sites = [k["key"] for k in common.load_known_findings() if k["property"] == "C13"]
+    c13_sites = [k["key"] for k in common.load_known_findings() if k["property"] == "C13"] + sorted(pending.pending_keys("C13"))
     for r in results:
         if "harness_exception" in r:
             raise common.InfraError("pipeline worker failed:\n" + r["harness_exception"])
@@ -501,12 +539,35 @@ def main():
     for r, a, b in console_bad[:3]:
         ck.violation(f"console says {a} CPU operators, the output file holds {b} ({r['label']}, {r['opts']})",
                      {"label": r["label"], "opts": r["opts"], "console": a, "output_file": b, "seed": ck.seed, "index": r["idx"]})
+    def printed_constraint(r, opname):
+        """the constraint whose sentence the real checker printed when it put operator `opname` on the CPU (or None)"""
+        mm = re.search(r"Warning: [^\n]*'" + re.escape(opname) + r"'[^\n]*\n - ([^\n]*)\n", r.get("stdout") or "")
+        if not mm:
+            return None
+        hits = [k for which_ in ("sup", "sem") for k, d_ in rc.docs[which_].items() if d_.split("\n")[0] == mm.group(1)]
+        return hits[0] if len(hits) == 1 else None
+
+    def insitu_key(r, which, verdict, name, m):
+        cm = c16_lib.canon_model(m)
+        if cm.startswith("cpu ") and verdict:
+            return f"insitu:{which}:model-rejects:{cm.split(' ')[1]}"
+        if cm == "npu" and not verdict and printed_constraint(r, name):
+            return f"insitu:{which}:real-rejects:{printed_constraint(r, name)}"
+        return None
+
+    pending_insitu = [t for t in insitu_dis if ck.finding_key_known(insitu_key(t[0], t[1], t[2], t[3], t[5])) is not None]
+    for r, which, verdict, name, dsc, m in pending_insitu:
+        ck.violation(f"constraint function differs from its repaired model on an operator the {which} checker saw during a real compilation "
+                     f"({r['label']}, op {name}): real {'npu' if verdict else 'cpu'}, model '{m}'",
+                     {"label": r["label"], "opts": r["opts"], "descriptor": dsc[:3000], "model": m, "real": verdict, "seed": ck.seed, "index": r["idx"]},
+                     found_input=True, key=insitu_key(r, which, verdict, name, m))
+    insitu_dis = [t for t in insitu_dis if t not in pending_insitu]
     for r, which, verdict, name, dsc, m in insitu_dis[:3]:
         ck.violation(f"correspondence broken on an operator the {which} checker saw during a real compilation ({r['label']}, op {name}): "
                      f"real {'npu' if verdict else 'cpu'}, model '{m}'",
                      {"correspondence": f"c16 {which} (in situ)", "label": r["label"], "opts": r["opts"], "descriptor": dsc[:3000], "model": m,
                       "real": verdict, "seed": ck.seed, "index": r["idx"]}, found_input=False)
-    known_place = classify_placement(ck, placement, explore)
+    known_place = classify_placement(ck, placement, explore, printed_constraint)
     if explore:
         for r, k, doc, run, obs in placement[:60]:
             print("PLACE", r["label"], r["opts"][1], r["src"][k]["type"], "doc:", doc[:90], "| model run:", run[:70], "| observed:", obs)
@@ -542,6 +603,7 @@ def main():
         "operators_seen_by_checkers_in_situ": seen_ops, "in_situ_disagreements": len(insitu_dis),
         "unreached_branches": {"supported_constraints_never_failing_in_stubs": sup_never, "semantic_constraints_never_failing_in_stubs": sem_never},
         "exhaustive": False,
+        "pending_repairs_open_in_this_tree": sorted(open_pending),
     }, assumptions=["Vela's tflite_reader is the translation source operator -> internal operator for the pipeline-level prediction",
                     "a source operator 'stays on the CPU' iff exactly one non-Ethos-U operator of the output file produces tensors with the names of its results "
                     "(then compared verbatim); it is 'on the NPU' iff none does and it lies in the backward slice of an Ethos-U operator (names of results down to names of operands)",
@@ -632,11 +694,18 @@ def replay(ck, path):
 
 
 # keys of known_findings.txt for placement differences of the unchanged tree (see design.d/C16.md)
-def classify_placement(ck, placement, explore):
+def classify_placement(ck, placement, explore, printed_constraint=None):
     known, reported = 0, 0
     for r, k, doc, run, obs in placement:
         s = r["src"][k]
         key = placement_key(s, doc, run, obs)
+        if key is None and printed_constraint is not None and doc.split(" ")[0] == "npu" and obs == "cpu":
+            # the report (read through the repaired model) accepts the operator, the compiler printed which constraint put it on
+            # the CPU: that constraint's function and its sentence disagree (known only while a repair of it is pending)
+            for nm in s["out_names"]:
+                c = printed_constraint(r, nm)
+                if c:
+                    key = "placement:real-rejects:" + c
         rp = {"label": r["label"], "opts": r["opts"], "seed": ck.seed, "index": r["idx"], "operator": s["type"], "outputs": s["out_names"],
               "documented": doc, "model_run_on_npu": run, "observed": obs, "descriptor": s["desc"][:3000],
               "replay": "harness/c16_nets.cases(Random(seed*7919+16))[index] -> netgen.serialize -> vela"}
